@@ -56,6 +56,9 @@ func (e cliEv) String() string {
 		}
 		return fmt.Sprintf("resp(%c)", 'A'+e.I)
 	case "start", "do", "dup", "overwrite", "indicate":
+		if e.I >= 10 {
+			return fmt.Sprintf("%s(#%d)", e.K, e.I)
+		}
 		return fmt.Sprintf("%s(%c)", e.K, 'A'+e.I)
 	case "tick":
 		return "tick(" + []string{"at-deadline", "just-after-deadline", "far"}[e.Arg] + ")"
@@ -357,6 +360,9 @@ func cliID(slot int) (id [12]byte) {
 		id[6] ^= 0x10
 	case 9: // unknown id
 		id[3] ^= 0xff
+	}
+	if slot >= 10 {
+		id[1], id[2], id[4] = byte(slot), byte(slot>>8), 0xEE
 	}
 	return
 }
